@@ -8,7 +8,7 @@ import (
 )
 
 func init() {
-	Register(&Profile{Name: "io-faults", Prop: "C18", Weight: 10, Quick: 900, Thorough: 12000, Fn: ioFaults})
+	Register(&Profile{Name: "io-faults", Prop: "C18", Weight: 10, Quick: 5000, Thorough: 100000, Fn: ioFaults})
 	SetMeta("C18", &Meta{
 		Level: "fault_enumeration",
 		Rule: "a scenario = (format, operation in {Create, Verify, Repair}, archive state) drawn from the tape; the operation is first run fault-free on a clone of the simulated disk to learn its I/O call sequence, then once per (call index, applicable fault kind) with that single fault injected on a fresh clone (exhaustive over call indices; thorough adds all pairs for short sequences and sampled pairs otherwise), followed by a fault-free rerun on the post-fault disk. evaluations = scenarios; distinct_nontrivial = distinct (format, operation, state class, number of I/O calls class) among scenarios in which every planned fault actually fired; counters.fault-injections = operations executed with a fault.",
